@@ -73,7 +73,7 @@ class Taper(om.ExplicitComponent):
             xp = np.array([-span / 2, 0.0, span / 2])
             fp = np.array([taper_ratio, 1.0, taper_ratio])
 
-        taper = np.interp(x.real, xp.real, fp.real)
+        taper = np.interp(x.real, xp.real, fp)
 
         # Modify the mesh based on the taper amount computed per spanwise section
         outputs["mesh"] = np.einsum("ijk,j->ijk", mesh - ref_axis, taper) + ref_axis
@@ -106,7 +106,10 @@ class Taper(om.ExplicitComponent):
         taper = np.interp(x, xp, fp)
 
         if taper_ratio == 1.0:
-            dtaper = np.zeros(taper.shape)
+            # d(taper)/d(taper_ratio) is the interpolation weight of the tip value; evaluate it directly here
+            # because the quotient below is 0/0 at taper_ratio == 1
+            dfp = np.array([1.0, 0.0]) if symmetry else np.array([1.0, 0.0, 1.0])
+            dtaper = np.interp(x.real, xp.real, dfp)
         else:
             dtaper = (1.0 - taper) / (1.0 - taper_ratio)
 
